@@ -83,7 +83,25 @@ type c18Reg struct {
 
 func (r *c18Reg) isMap(t types.Type) bool {
 	m, ok := t.Underlying().(*types.Map)
-	return ok && c18IsServer(m.Elem(), r.srv)
+	if !ok {
+		return false
+	}
+	// the server itself, or a small record around it (`map[string]*entry` with `entry{srv Server; ln net.Listener}`)
+	e := m.Elem()
+	if c18IsServer(e, r.srv) {
+		return true
+	}
+	if p, isPtr := e.Underlying().(*types.Pointer); isPtr {
+		e = p.Elem()
+	}
+	if st, isStruct := e.Underlying().(*types.Struct); isStruct {
+		for i := 0; i < st.NumFields(); i++ {
+			if c18IsServer(st.Field(i).Type(), r.srv) {
+				return true
+			}
+		}
+	}
+	return false
 }
 
 func c18Registries(c *Ctx, srv *types.Named) *c18Reg {
@@ -142,31 +160,24 @@ func (r *c18Reg) from(v ssa.Value) bool {
 	return derives(v, func(x ssa.Value) bool { return r.load(x) })
 }
 
-// c18SyncRegion: f and the repository functions it runs synchronously - static callees of call and defer instructions
-// (an immediately invoked closure is a static callee), not the targets of go statements. Not limited to one package.
+// c18SyncRegion: f and the repository functions it runs synchronously - the callees of call and defer instructions
+// (an immediately invoked closure, a local closure variable, a callback parameter resolved to what the caller on this
+// path passed, a method behind a small interface whose concrete type is visible), not the targets of go statements.
+// Not limited to one package.
 func c18SyncRegion(f *ssa.Function, depth int) []*ssa.Function {
 	var out []*ssa.Function
 	seen := map[*ssa.Function]bool{}
-	var add func(g *ssa.Function, d int)
-	add = func(g *ssa.Function, d int) {
-		if g == nil || seen[g] || len(g.Blocks) == 0 || !isRepoFn(g) {
-			return
-		}
-		seen[g] = true
-		out = append(out, g)
-		if d >= depth {
-			return
-		}
-		eachInstr(g, func(i ssa.Instruction) {
-			if _, isGo := i.(*ssa.Go); isGo {
-				return
-			}
-			for _, t := range c18Targets(callCommon(i)) {
-				add(t, d+1)
-			}
-		})
+	if f == nil || len(f.Blocks) == 0 || !isRepoFn(f) {
+		return nil
 	}
-	add(f, 0)
+	c18EachFrame(f, depth, false, func(fr *c18Frame) bool {
+		if seen[fr.fn] {
+			return c18Contextual(fr.fn)
+		}
+		seen[fr.fn] = true
+		out = append(out, fr.fn)
+		return true
+	})
 	return out
 }
 
@@ -307,9 +318,10 @@ func c18OnlyStatic(fn *ssa.Function) bool {
 	return ok && found
 }
 
-// c18Targets: the repository functions a call/go/defer instruction runs: its static callee, or what its function value
-// may denote - a closure, a named function, a method value, also when the value is a local closure variable captured
-// by the calling closure (`leave := func() {...}` called from the handler closure).
+// c18Targets: the repository functions a call/go/defer instruction may run: its static callee, or what its function
+// value may denote (c18FuncsOf) - a closure, a named function, a method value, a local closure variable captured by the
+// calling closure (`leave := func() {...}` called from the handler closure), a callback parameter (what the static call
+// sites of the function pass), a function kept in a struct field.
 func c18Targets(cc *ssa.CallCommon) []*ssa.Function {
 	if cc == nil || cc.IsInvoke() {
 		return nil
@@ -323,50 +335,7 @@ func c18Targets(cc *ssa.CallCommon) []*ssa.Function {
 	if _, isB := cc.Value.(*ssa.Builtin); isB {
 		return nil
 	}
-	var vals []ssa.Value
-	vals = append(vals, cc.Value)
-	// a captured variable: the values stored into the cell the closure was bound to
-	var fv *ssa.FreeVar
-	if u, ok := cc.Value.(*ssa.UnOp); ok && u.Op == token.MUL {
-		fv, _ = u.X.(*ssa.FreeVar)
-	} else {
-		fv, _ = cc.Value.(*ssa.FreeVar)
-	}
-	if fv != nil && fv.Parent() != nil && fv.Parent().Parent() != nil {
-		g := fv.Parent()
-		idx := -1
-		for k, x := range g.FreeVars {
-			if x == fv {
-				idx = k
-			}
-		}
-		eachInstr(g.Parent(), func(i ssa.Instruction) {
-			mc, ok := i.(*ssa.MakeClosure)
-			if !ok || mc.Fn != g || idx < 0 || idx >= len(mc.Bindings) {
-				return
-			}
-			b := mc.Bindings[idx]
-			vals = append(vals, b)
-			if a, ok := b.(*ssa.Alloc); ok {
-				for _, r := range *a.Referrers() {
-					if st, ok := r.(*ssa.Store); ok && st.Addr == a {
-						vals = append(vals, st.Val)
-					}
-				}
-			}
-		})
-	}
-	var out []*ssa.Function
-	seen := map[*ssa.Function]bool{}
-	for _, v := range vals {
-		for _, f := range funcsOf(v) {
-			if !seen[f] && isRepoFn(f) && len(f.Blocks) > 0 {
-				seen[f] = true
-				out = append(out, f)
-			}
-		}
-	}
-	return out
+	return c18FuncsOf(cc.Value)
 }
 
 // c18MayExec: some instruction of fn, or of a repository function it may run synchronously (c18Targets of its calls and
@@ -525,7 +494,7 @@ func c18WaitOf(i ssa.Instruction) (c18Wait, bool) {
 // captured variables).
 func c18ChanRoots(ch ssa.Value) map[*ssa.MakeChan]bool {
 	out := map[*ssa.MakeChan]bool{}
-	derives(ch, func(v ssa.Value) bool {
+	c18Derives(ch, func(v ssa.Value) bool {
 		if mc, ok := v.(*ssa.MakeChan); ok {
 			out[mc] = true
 		}
@@ -575,20 +544,14 @@ func c18LockOp(i ssa.Instruction) (key, kind string) {
 	return key, kind
 }
 
-// c18ElemFields: the fields of struct type pkg.typ whose type is a collection (slice, array, map key or value, channel)
-// of the named type elem ("net.Listener"): the role "the listeners / the connections the server tracks".
-func c18ElemFields(c *Ctx, pkg, typ, elem string) map[string]bool {
-	out := map[string]bool{}
+// c18ElemFieldVars: the struct fields declared in package pkg whose type is a collection (slice, array, map key or
+// value, channel, nested collections, a pointer to one) of the named type elem ("net.Listener") or of a concrete type
+// that implements it: the role "the listeners / the connections the server tracks". The field may sit in the server
+// type itself or in a small type the server delegates the bookkeeping to.
+func c18ElemFieldVars(c *Ctx, pkg, elem string) map[*types.Var]bool {
+	out := map[*types.Var]bool{}
 	sp := c.spkg(pkg)
 	if sp == nil {
-		return out
-	}
-	t := sp.Type(typ)
-	if t == nil {
-		return out
-	}
-	st, ok := t.Type().Underlying().(*types.Struct)
-	if !ok {
 		return out
 	}
 	// the element interface itself, to recognise collections of a concrete type that implements it ([]*conn)
@@ -631,50 +594,40 @@ func c18ElemFields(c *Ctx, pkg, typ, elem string) map[string]bool {
 		case *types.Map:
 			return is(x.Key()) || is(x.Elem()) || holds(x.Elem(), d+1)
 		case *types.Pointer:
-			return holds(x.Elem(), d+1)
-		case *types.Struct:
-			// a small wrapper type around the collection
-			for i := 0; i < x.NumFields(); i++ {
-				if holds(x.Field(i).Type(), d+1) {
-					return true
-				}
+			if _, isStruct := x.Elem().Underlying().(*types.Struct); !isStruct {
+				return holds(x.Elem(), d+1)
 			}
 		}
 		return false
 	}
-	for i := 0; i < st.NumFields(); i++ {
-		if holds(st.Field(i).Type(), 0) {
-			out[st.Field(i).Name()] = true
+	for _, m := range sp.Members {
+		t, ok := m.(*ssa.Type)
+		if !ok {
+			continue
+		}
+		st, ok := t.Type().Underlying().(*types.Struct)
+		if !ok {
+			continue
+		}
+		for i := 0; i < st.NumFields(); i++ {
+			if holds(st.Field(i).Type(), 0) {
+				out[st.Field(i)] = true
+			}
 		}
 	}
 	return out
 }
 
-// c18FieldLoad: v is a load (or the address) of one of the fields of named type typ.
-func c18FieldLoad(v ssa.Value, typ string, fields map[string]bool) bool {
-	for f := range fields {
-		if _, ok := fieldOf(v, typ, f); ok {
-			return true
-		}
-	}
-	return false
-}
-
-// c18FromFieldElems: v derives from the elements of one of the collection fields of typ: an index of the loaded
-// slice, or the key / value delivered by ranging over the loaded map.
-func c18FromFieldElems(v ssa.Value, typ string, fields map[string]bool) bool {
+// c18FromFields: v derives from (the elements of) one of the given collection fields: an index of the loaded slice,
+// the key / value delivered by ranging over the loaded map, also through a helper that returns the collection or is
+// handed it.
+func c18FromFields(v ssa.Value, fields map[*types.Var]bool) bool {
 	return derives(v, func(x ssa.Value) bool {
-		if c18FieldLoad(x, typ, fields) {
-			return true
+		if _, isAddr := x.(*ssa.FieldAddr); isAddr {
+			return fields[c18FieldVarOf(x)]
 		}
-		if e, ok := x.(*ssa.Extract); ok {
-			if nx, ok := e.Tuple.(*ssa.Next); ok {
-				if rg, ok := nx.Iter.(*ssa.Range); ok {
-					return derives(rg.X, func(y ssa.Value) bool { return c18FieldLoad(y, typ, fields) })
-				}
-			}
-		}
-		return false
+		fv := c18FieldVarOf(x)
+		return fv != nil && fields[fv]
 	})
 }
 
